@@ -909,6 +909,77 @@ def targets():
     return ts
 
 
+# ---------------------------------------------------------------------- structural extraction
+# class -> file, for every class whose translate_rotate mutates the object in place
+STRUCT = [
+    ("StopLine", "commonroad/common/common_lanelet.py"), ("Lanelet", "commonroad/scenario/lanelet.py"),
+    ("LaneletNetwork", "commonroad/scenario/lanelet.py"), ("TrafficSign", "commonroad/scenario/traffic_sign.py"),
+    ("TrafficLight", "commonroad/scenario/traffic_light.py"), ("AreaBorder", "commonroad/scenario/area.py"),
+    ("Area", "commonroad/scenario/area.py"), ("Trajectory", "commonroad/scenario/trajectory.py"),
+    ("Occupancy", "commonroad/prediction/prediction.py"), ("SetBasedPrediction", "commonroad/prediction/prediction.py"),
+    ("TrajectoryPrediction", "commonroad/prediction/prediction.py"), ("StaticObstacle", "commonroad/scenario/obstacle.py"),
+    ("DynamicObstacle", "commonroad/scenario/obstacle.py"), ("PhantomObstacle", "commonroad/scenario/obstacle.py"),
+    ("EnvironmentObstacle", "commonroad/scenario/obstacle.py"), ("Scenario", "commonroad/scenario/scenario.py"),
+    ("GoalRegion", "commonroad/planning/goal.py"), ("PlanningProblem", "commonroad/planning/planning_problem.py"),
+    ("PlanningProblemSet", "commonroad/planning/planning_problem.py"),
+]
+
+
+def self_attr(n):
+    """`self.x`, `self.x.values()`, `self.x or []`, `self.x[i]`, `enumerate(self.x)`, `range(len(self.x))` -> 'x' (no leading '_')."""
+    while True:
+        if isinstance(n, ast.Call) and isinstance(n.func, ast.Attribute) and n.func.attr in ("values", "items", "copy") and not n.args:
+            n = n.func.value
+        elif isinstance(n, ast.Call) and isinstance(n.func, ast.Name) and n.func.id in ("enumerate", "range", "len", "list") and len(n.args) == 1:
+            n = n.args[0]
+        elif isinstance(n, ast.BoolOp) and isinstance(n.op, ast.Or):
+            n = n.values[0]
+        elif isinstance(n, ast.Subscript):
+            n = n.value
+        else:
+            break
+    if isinstance(n, ast.Attribute) and isinstance(n.value, ast.Name) and n.value.id == "self":
+        return n.attr.lstrip("_")
+    return None
+
+
+def moved_attrs(fn):
+    """attributes of `self` that `translate_rotate` assigns, calls `.translate_rotate` on, or walks with a loop whose body moves the element"""
+    out = set()
+    for n in ast.walk(fn):
+        if isinstance(n, ast.Assign):
+            for tg in n.targets:
+                for x in (tg.elts if isinstance(tg, ast.Tuple) else [tg]):
+                    a = self_attr(x)
+                    if a:
+                        out.add(a)
+        if isinstance(n, ast.Call) and isinstance(n.func, ast.Attribute) and n.func.attr == "translate_rotate":
+            a = self_attr(n.func.value)
+            if a:
+                out.add(a)
+        if isinstance(n, (ast.For, ast.comprehension)):
+            body = n.body if isinstance(n, ast.For) else []
+            names = {x.id for x in ast.walk(n.target) if isinstance(x, ast.Name)}
+            moves = any(isinstance(c, ast.Call) and isinstance(c.func, ast.Attribute) and c.func.attr == "translate_rotate"
+                        and isinstance(c.func.value, ast.Name) and c.func.value.id in names
+                        for b in body for c in ast.walk(b))
+            a = self_attr(n.iter)
+            if a and moves:
+                out.add(a)
+    return sorted(out)
+
+
+def struct_table(repo):
+    rows = []
+    for cls, file in STRUCT:
+        tree = ast.parse(open(os.path.join(repo, file), encoding="utf-8").read())
+        rows.append((cls, moved_attrs(find_func(tree, cls, "translate_rotate"))))
+    body = ",\n".join('  ("%s", [%s])' % (c, ", ".join('"%s"' % a for a in attrs)) for c, attrs in rows)
+    return ("/-- structural extraction: per class, the attributes of `self` (leading `_` dropped) that `translate_rotate` of the CURRENT\n"
+            "    source assigns, calls `translate_rotate` on, or walks in a loop whose body moves the element -/\n"
+            "def C05_movedTable : List (String × List String) := [\n" + body + "]\n")
+
+
 def translate_target(repo, t):
     src = open(os.path.join(repo, t.file), encoding="utf-8").read()
     fn = find_func(ast.parse(src), t.cls, t.func)
@@ -947,6 +1018,14 @@ def build(repo):
                 txt = f"-- {t.name}: not translatable ({e})\n"
                 status["C05." + t.name] = f"lost ({type(e).__name__}: {e}); no fallback"
         chunks.append(txt)
+    lg = lastgood_path("movedTable")
+    try:
+        txt = struct_table(repo)
+        status["C05.movedTable"] = "ok"
+    except (Unsupported, SyntaxError, KeyError, IndexError, AttributeError, OSError, TypeError, ValueError) as e:
+        txt = open(lg).read() if os.path.exists(lg) else f"-- movedTable: not extractable ({e})\n"
+        status["C05.movedTable"] = f"lost ({type(e).__name__}: {e}); last good table used"
+    chunks.append(txt)
     return status, chunks
 
 
@@ -967,6 +1046,7 @@ def update_lastgood(repo):
     os.makedirs(LASTGOOD, exist_ok=True)
     for t in targets():
         open(lastgood_path(t.name), "w").write(translate_target(repo, t))
+    open(lastgood_path("movedTable"), "w").write(struct_table(repo))
 
 
 if __name__ == "__main__":
